@@ -7,6 +7,30 @@ ids = [p["id"] for p in props]
 
 # id -> (engine, technique, level text, level note, design ref)
 CLAIMED = {
+ "C01": ("E-DEF->E-INF", "proptest tape generation of (config, data recipe, legal deflate schedule incl. params/tune/flushes) with shrinking; round-trip oracle through zlib-rs inflate one-shot and chunked",
+         "exploration: generated sessions over all levels/strategies/windows/memLevels/wrappers with inputs of several window sizes and adversarial per-call buffers (0/1 byte up to 400000) on libz_rs_sys, zlib_rs::Deflate and compress_slice must decompress to exactly the input with STREAM_END consuming the whole stream",
+         "round-trip oracle uses zlib-rs's own inflate (as the property states); legality of schedules follows the zlib manual (flush repeated until avail_out > 0, only FINISH after FINISH)", "DESIGN.md 6 (C01)"),
+ "C02": ("E-INF", "proptest generation of untrusted byte strings x any windowBits x schedules; guard-page buffers + process isolation + counting oracles",
+         "exploration: noise, mutated and faulted streams under every windowBits inflateInit2 accepts, with 0/1-byte buffers, header capture capacities and the one-shot helpers; every caller buffer ends at a PROT_NONE page, the worker process is the observation unit (signal/abort = violation, confirmed and shrunk from the journaled tape)",
+         "guard pages see overruns of caller buffers only (library-internal overruns need the asan variant); a hang inside one call is reported as exit 2 (inconclusive) by the watchdog; inflateBack is covered by C19's check", "DESIGN.md 6 (C02)"),
+ "C04": ("E-INF", "proptest generation of byte strings x 4 schedules of (avail_in, avail_out, flush) per case; metamorphic oracle against the one-call baseline",
+         "exploration: every generated schedule (chunks from 0/1 byte to > 32 KiB, all five flush modes, then deliver-everything) must reach the baseline's (output bytes, final status class, total_in) on libz_rs_sys::inflate and zlib_rs::Inflate",
+         "decoder window kept >= the largest distance of generated streams (zlib's outcome is schedule-dependent otherwise); mutated/noise inputs use 32 KiB windows", "DESIGN.md 6 (C04)"),
+ "C05": ("E-DEF", "proptest generation of deflate sessions (incl. dictionaries, gzip headers); oracle = independent wrapper parser + strict RFC 1951 decoder limited to the announced window",
+         "exploration: the complete output of every generated session is parsed (header fields incl. FLEVEL/XFL/FDICT/DICTID/FHCRC) and decoded by R-DEC strict (complete codes, distances <= min(window, produced + dictionary), trailer, nothing after)",
+         "trusts R-DEC/R-GZH/R-CK; FLEVEL/XFL expectations follow zlib's level-hint rule evaluated at header time", "DESIGN.md 6 (C05)"),
+ "C07": ("E-DEF (single Finish)", "proptest generation of (config, header, dictionary, length, adversarial data family); bound oracle with guard page after the bound-sized buffer",
+         "exploration: one deflate(Z_FINISH) into deflateBound bytes must end the stream; compress2/compress/compress_slice into compressBound must succeed; lengths 0..64 and thresholds around lit_bufsize, window and 64 KiB are sampled densely",
+         "one known finding (raw exact fit: Z_OK instead of Z_STREAM_END) is matched by exact signature; a bound that is exceeded is a different signature", "DESIGN.md 6 (C07)"),
+ "C08": ("E-INF", "proptest generation of wrapped streams with targeted syntax-preserving corruptions x trailer-splitting schedules; universal end-of-stream oracle recomputing Adler-32/CRC-32/ISIZE/FHCRC",
+         "exploration: on every STREAM_END the consumed trailer and header CRC are recomputed from the bytes actually output with bitwise reference checksums; payload/trailer/FHCRC-covered bit flips must end in DATA_ERROR under every schedule (outputs > 32 KiB per call, 1-byte calls, splits inside the trailer)",
+         "trusts R-CK; > 4 GiB streams (length mod 2^32) are not generated", "DESIGN.md 6 (C08)"),
+ "C11": ("E-DEF", "proptest generation of flush-heavy deflate sessions; incremental strict reference decoding at every completed flush point",
+         "exploration: at every PARTIAL/SYNC/FULL flush that returns with avail_out > 0 the bytes so far decode (R-DEC strict) to exactly the input supplied so far; marker 00 00 FF FF and byte alignment for SYNC/FULL; after FULL all later data decodes with only the history since that point",
+         "flush points are those the zlib manual defines (call returned with avail_out > 0); trusts R-DEC", "DESIGN.md 6 (C11)"),
+ "C12": ("E-DEF + zlib-ng", "proptest generation of deflate sessions executed as the canonical application loop on zlib-rs and zlib-ng 2.3.3; differential oracle on the total output",
+         "exploration: identical compressed bytes and stream end for generated (config, data, chunk boundaries, flush kinds, params/tune changes, dictionaries, gzip headers); cases where zlib-ng's own output fails the strict reference decoder are dropped and counted",
+         "zlib-ng 2.3.3 as vendored in libz-sys 1.1.29 is the reference; per-call movement is compared under C16, not here", "DESIGN.md 6 (C12)"),
  "C03": ("E-GEN->E-INF", "proptest tape generation of ground-truth deflate streams (R-GEN) with single-fault injection, mutation and prefixes + exhaustive enumeration of short raw streams; oracle = independent RFC decoder R-DEC arbitrated by zlib-ng",
          "exploration: generated valid/faulted/prefix/mutated/encoder-made streams under every wrapper and decoder mode are decoded one-shot and under a generated chunk schedule and compared with an independent strict RFC 1951/1950/1952 decoder whose verdict is cross-checked against the construction label on every case; all raw streams of <= 2 bytes (quick) / <= 3 bytes (thorough) are enumerated",
          "trusts R-DEC/R-GZH/R-GEN in harness/src/refimpl (cross-checked per case against each other and zlib-ng 2.3.3; a disagreement among the oracles is exit 2, never a violation); decoder window is kept >= the largest distance the generator used, because zlib's verdict is schedule-dependent otherwise", "DESIGN.md 6 (C03)"),
